@@ -134,7 +134,9 @@ theorem handlerFinish_vk {m : M} {r : Res} (h : VK m r) : VK m (handlerFinish r)
     refine VK.map (r := .ok m1) h (fun x' hx => ⟨m1, rfl, ?_⟩)
     simp only [handlerFinish] at hx
     split at hx
-    · rename_i m2 hp; cases hx; exact dropTop_verb hp
+    · rename_i m2 hp
+      have e2 := dropTop_verb hp
+      cases hx; exact e2
     · cases hx
   | err m1 => trivial
   | crash w m1 => trivial
@@ -308,7 +310,7 @@ theorem execCore_vk : ∀ (o : Op) (m : M), VK m (execCore o m)
     exact tmpFinish_vk (VK.of_eq (m1 := pushVals n m) rfl (exec_vk body _))
   | .handler id body, m => by
     simp only [execCore]
-    exact handlerFinish_vk (VK.of_eq (m1 := { m with vs := Slot.handler id :: m.vs }) rfl (exec_vk body _))
+    exact handlerFinish_vk (VK.of_eq (m1 := { m with vs := Slot.handler (id + 1) :: m.vs, efunCtx := (id + 1) :: m.efunCtx }) rfl (exec_vk body _))
   | .setReg r v, m => by
     simp only [execCore]
     cases r <;> exact Or.inl rfl
